@@ -1005,7 +1005,7 @@ class Parsent(object):
         self.error = None
 
         while not self.started:
-            if self.msg:
+            if self.msg or self.closed:  # closed before any of the message arrived
                 self.started = True
                 break
             (yield None)
